@@ -241,14 +241,12 @@ def run(chk):
         "mode round-trips compared." % (2 * 2 * 3 * 4 * 4 * 3)
     )
     d = 2 if quick else 3
-    failures, tags = grid.run(chk, BUCKETS, d, evaluate_bucket)
-    all_f = [(c, dict(BUCKETS.wit(case), kind="bucket"), e, g) for (c, case, e, g) in failures]
+    failures, tags = grid.run(chk, BUCKETS, d, evaluate_bucket,
+                              shrink=(lambda case: dict(BUCKETS.wit(case), kind="bucket"), simplify, fails_fn))
     chk.clause(PROP + ".bucket", checked=chk.cov["states"], nontrivial=tags.get("nontrivial", 0))
     chk.cov["bounds"] = {"bucket toggles d": d}
     n0 = chk.cov["states"]
-    f2, tags2, ind = c01.explore(chk, PROP, evaluate_idem, fails_fn)
+    f2, tags2, ind = c01.explore(chk, PROP, evaluate_idem, fails_fn, shrink=(c01.ALL.wit, simplify, fails_fn))
     chk.cov["transitions"] = n0 * 2 + (chk.cov["states"] - n0) * 5
-    all_f.extend(f2)
     chk.clause(PROP + ".idem", checked=ind, nontrivial=tags2.get("changed", 0))
     chk.clause(PROP + ".modes", checked=ind, nontrivial=tags2.get("changed", 0))
-    core.reduce_failures(chk, all_f, simplify, fails_fn)
